@@ -15,7 +15,12 @@ Funcs == {"str", "list", "dict", "tuple", "map", "filter", "sorted", "iter", "ha
           "sum", "max", "enumerate", "zip", "frozenset", "set", "bool", "int", "slice", "round", "abs",
           "getattr", "vars", "type", "dir", "repr", "format", "eval", "hasattr", "object", "globals", "locals", "open",
           "print", "next", "isinstance", "__import__", "super", "setattr", "callable", "classmethod"}
+\* the same member access written with parentheses / blanks around the member name (the parser discards
+\* redundant parentheses, so these must be refused exactly like the plain spelling)
+Spellings(a, m) == {a \o "." \o m, a \o ".(" \o m \o ")", a \o ".((" \o m \o "))", a \o " . " \o m, "(" \o a \o ")." \o m}
+PrivateMembers == {"_x", "__class__", "__dict__", "_Sentinel__secret"}
 Level1(S) == S \cup {a \o "." \o m : a \in S, m \in Members}
+                \cup UNION {Spellings(a, m) : a \in S \cap {"s", "t", "from", "to", "s.pub", "lst[0]", "d[\"k\"]", "tup[0]"}, m \in PrivateMembers \cup {"pub"}}
                 \cup {f \o "(" \o a \o ")" : f \in Funcs, a \in S}
                 \cup {a \o "[" \o i \o "]" : a \in {"lst", "d", "tup", "s", "from", "to"}, i \in {"0", "\"k\"", "\"_x\""}}
 Formatters == {"\"{0._x}\"", "\"{0.pub._x}\"", "\"{0[k]._x}\"", "\"{0.__class__}\"", "\"{0.__class__.__name__}\"",
